@@ -71,15 +71,22 @@ DelRef(a, t, b, fwd, bidir) ==
      /\ evt' = [ev |-> "DelRef", a |-> a, t |-> t, b |-> b, fwd |-> fwd, bidir |-> bidir, fail |-> "none",
                 status |-> status, id |-> -1, st |-> P]
 
-\* DeleteNodes, one item, with target references: the node, the nodes it aggregates, all their references
-RECURSIVE Clo(_, _)
-Clo(S, k) == IF k = 0 THEN S ELSE Clo(S \cup {r[3] : r \in {x \in refs : x[1] \in S /\ x[2] \in {"HC", "HP"}}}, k - 1)
-DelNode(n) ==
-  LET gone == Clo({n}, K + 1)
-      status == IF n \in nodes THEN "Good" ELSE "BadNodeIdUnknown"
-  IN /\ nodes' = IF status = "Good" THEN nodes \ gone ELSE nodes
-     /\ refs' = IF status = "Good" THEN {r \in refs : r[1] \notin gone /\ r[3] \notin gone} ELSE refs
+\* DeleteNodes, one item (AddressSpace::delete): the node and the nodes it aggregates (HasComponent / HasProperty, followed
+\* only from nodes that exist) are removed; with delete_target_references every reference from or to a visited node goes too,
+\* without it the references stay behind. The status reflects the item's own node: Good when it existed or when references
+\* of it were removed.
+CONSTANT DevFollowDangling      \* the aggregates of a node that does not exist (references left behind) are deleted too
+RECURSIVE CloE(_, _)
+CloE(S, k) == IF k = 0 THEN S
+              ELSE CloE(S \cup {r[3] : r \in {x \in refs : x[1] \in (IF DevFollowDangling THEN S ELSE S \cap nodes) /\ x[2] \in {"HC", "HP"}}}, k - 1)
+DelNode(n, tr) ==
+  LET exists == n \in nodes
+      visited == IF exists \/ DevFollowDangling THEN CloE({n}, K + 1) ELSE {n}
+      touched == \E r \in refs : r[1] = n \/ r[3] = n
+      status == IF exists \/ (tr /\ touched) THEN "Good" ELSE "BadNodeIdUnknown"
+  IN /\ nodes' = nodes \ visited
+     /\ refs' = IF tr THEN {r \in refs : r[1] \notin visited /\ r[3] \notin visited} ELSE refs
      /\ UNCHANGED <<names, nextAuto>>
-     /\ evt' = [ev |-> "DelNode", a |-> n, fail |-> "none", status |-> status, id |-> -1, st |-> P]
+     /\ evt' = [ev |-> "DelNode", a |-> n, tr |-> tr, fail |-> "none", status |-> status, id |-> -1, st |-> P]
 
 =============================================================================
